@@ -585,7 +585,6 @@ func vC38_mvregister() {
 	vCover("end")
 }
 
-
 // ---------------------------------------------------------------- ORSet
 
 var vC38_elems = [2]any{any(1), any(2)}
